@@ -6,12 +6,12 @@ import sem_engine
 GEN_UNITS = ['Encoders', 'Criteria', 'Pseudo']
 EXES = ['bbmodel', 'bbspec', 'bbsem']
 ASSUMPTIONS = ['single hart, no traps: fence is a no-op; misaligned / out-of-range addresses are not faults',
-               'theorems: uncompressed rendering, register operands spelled as register names (not constant aliases)']
+               'theorems: both renderings (uncompressed and compressed), register operands spelled as register names (not constant aliases)']
 TRUSTED_EXTRA = ['coq/Spec/Sem.v: RV32I(+M) single-step semantics and the documented pseudo-instruction effects, written by hand '
                  'from the ISA manual / docs/instruction_reference.rst', 'ocaml/bbsem.ml driver; tools/sem_engine.py (independent Python '
                  'transcription of the documented effects)']
 CLAIM = dict(
-    text='13 theorems (coq/Props/C05.v, zero axioms) over the pass model (expand_pseudo / pseudo_rule of coq/Model/Passes.v), the model\'s own '
+    text='35 theorems (coq/Props/C05.v, zero axioms) over the pass model (expand_pseudo / pseudo_rule of coq/Model/Passes.v), the model\'s own '
          'resolve_immediates / resolve_instructions / resolve_blobs, the GENERATED encoders (through C01 decode_encode) and %hi/%lo (C07 '
          'hi_lo_rebuild): for each of the 27 pseudo-instructions, every accepted register spelling (rd = rs, x0, sp: no side condition), every '
          'state (registers, pc, memory arbitrary) in which the emitted bytes sit at the pc, the Spec machine (Spec/Sem.v: fetch from byte memory, '
@@ -24,9 +24,16 @@ CLAIM = dict(
          'machine on random/special register files and load addresses, compared with an independent Python transcription of the documented '
          'effects: all 27 pseudos, all 32x32 register pairs, li over low-13-bit x upper patterns in +/-/>2^32 spellings and label-dependent '
          'operands (%position, %offset, expressions), every distance class of branches/j/jal/call/tail, alone and inside programs, '
-         'compression off and on.',
-    note='Theorems cover the uncompressed rendering with register operands spelled as register names; the compressed rendering and constant '
-         'aliases as register operands are covered by the falsifier only (composition with C04 rule soundness not done). emit_bytes applies the '
+         'compression off and on. THE COMPRESSED RENDERING is proved too (Proofs/RuleStep.v, CodeLine.v, PseudoCompressed.v, PseudoCompressedRule.v): '
+         'C05_rule_step -- whenever the compression pass selects a rule, the halfword it emits executes on the Spec machine (decode16 + expand_c) exactly like '
+         'the 32-bit instruction, taken with length 2; C05_*_compressed (li, unary, branch_zero, branch_two, j/jal, jr/jalr, ret, call/tail near and far, nop, fence): '
+         'whatever compress_rule returns for the expansion, emitted at any final position with any final label table, has the documented effect with its own length; '
+         'C05_li/unary/nop/jr_jalr/ret_program_compressed: the ONE-LINE program through all 16 passes with compress = true (2, 4, 6 or 8 bytes), run on the machine; '
+         'C05_j_jal/branch_zero_program_compressed: the program `t0: pseudo ref; t2:` (ref backwards or forwards) with the label table after shrinking. 19 computed runs '
+         '(li a0,5 -> c.li; 0x12000 -> c.lui + c.mv; 0x12345 -> c.lui + addi, 6 bytes; li sp,0x12010 -> lui + c.addi16sp; ...).',
+    note='Theorems cover both renderings with register operands spelled as register names; constant aliases as register operands are covered '
+         'by the falsifier (and C11); the program-level theorems take no constants / labels handed in. The effect of a compressed instruction is stated with ITS OWN '
+         'length (pc + 2, link = pc + 2). emit_bytes applies the '
          'model\'s last passes to the expanded items in isolation (that the full pipeline treats them the same at their final position is the '
          'layout theorem of C03/C09). Trusted: Coq kernel (+vm_compute for the Examples), py2coq, Spec/Sem.v (my reading of the ISA manual and of '
          'docs/instruction_reference.rst), Spec/RV32.v decoder, Spec/Operands.v, extraction + ocaml/bbsem.ml, tools/sem_engine.py oracle. '
